@@ -8,8 +8,9 @@
      - [kind_*]: the mirror of the class's `kind` property AS IT IS in /repo today;
      - [spec_*]: the independent specification of the features the problem syntactically uses (common features through
        the flattened view, one short clause per class-specific feature);
-     - [*_goal]: the full statement "spec inside kind" including the positions the class's `kind` never looks at
-       (refuted in Props/C10_classes.v where the code forgets them).
+     - [*_goal]: the full statement "spec inside kind" including the positions the class's `kind` did not look at
+       (multi-agent: refuted in Props/C10_classes.v; hierarchical and scheduling: proved after the repairs c453608 and
+       c7cadef of /repo, which the mirrors below include).
    Feature numbers come from Gen_Kind. *)
 From Coq Require Import List ZArith NArith Bool.
 Import ListNotations.
@@ -218,8 +219,13 @@ Definition hier_conditions (H : hier_desc) : list cexpr :=
 Definition flat_hier (H : hier_desc) : problem_desc := with_goals (hp_base H) (hier_conditions H).
 
 Definition hier_max_lvl (H : hier_desc) : N := fold_left N.max (map me_lvl (hp_methods H)) (hp_tn_lvl H).
+(* the update_problem_kind_type calls of HierarchicalProblem.kind (since fix c453608 of /repo: parameters of the tasks,
+   task-network variables, and - inside the method loop - parameters of each method) *)
+Definition hier_type_feats (H : hier_desc) : list feature :=
+  flat_map M.type_feats (hp_task_params H) ++ flat_map M.type_feats (hp_tn_vars H)
+  ++ flat_map (fun m => flat_map M.type_feats (me_params m)) (hp_methods H).
 (* the set_hierarchical / set_time calls of HierarchicalProblem.kind *)
-Definition hier_class_feats (H : hier_desc) : list feature :=
+Definition hier_class_feats0 (H : hier_desc) : list feature :=
   clause f_INITIAL_TASK_NETWORK_VARIABLES (nonempty (hp_tn_vars H))
   ++ clause f_TASK_NETWORK_CONSTRAINTS (nonempty (hp_tn_constraints H))
   ++ flat_map (fun m => clause f_METHOD_PRECONDITIONS (nonempty (me_pre m))
@@ -229,6 +235,7 @@ Definition hier_class_feats (H : hier_desc) : list feature :=
      | 1%N => [f_TASK_ORDER_PARTIAL]
      | _ => [f_TASK_ORDER_TEMPORAL; f_CONTINUOUS_TIME]
      end.
+Definition hier_class_feats (H : hier_desc) : list feature := hier_type_feats H ++ hier_class_feats0 H.
 (* HierarchicalProblem.kind:  factory = self._kind_factory()   -- Problem._kind_factory with the OVERRIDDEN
    _get_static_and_unused_fluents: as a set of set_* calls this is M.raw of the flattened view without the
    update_problem_kind_expression calls on the extra conditions, which the code makes itself right after;
@@ -250,14 +257,17 @@ Definition spec_hier_class (H : hier_desc) : list feature :=
   ++ clause f_TASK_ORDER_TEMPORAL (existsb (fun l => (2 <=? l)%N) (hier_lvls H))
   ++ clause f_TASK_ORDER_PARTIAL (negb (existsb (fun l => (2 <=? l)%N) (hier_lvls H)) && existsb (fun l => (l =? 1)%N) (hier_lvls H))
   ++ clause f_TASK_ORDER_TOTAL (forallb (fun l => (l =? 0)%N) (hier_lvls H)).
+(* [spec_hier]: common + class features; [spec_hier_full] adds the typing of method / task parameters and variables *)
 Definition spec_hier (H : hier_desc) : list feature := spec_features (flat_hier H) ++ spec_hier_class H.
-(* typing of the parameters of methods and tasks and of the task-network variables: positions the kind never reads *)
+(* typing of the parameters of methods and tasks and of the task-network variables (visited since fix c453608) *)
 Definition hier_param_types (H : hier_desc) : list ty :=
   hp_task_params H ++ flat_map me_params (hp_methods H) ++ hp_tn_vars H.
 Definition spec_hier_params (H : hier_desc) : list feature := flat_map spec_type_features (hier_param_types H).
 Definition wf_hier (H : hier_desc) : Prop := wf (flat_hier H).
+Definition spec_hier_full (H : hier_desc) : list feature := spec_hier H ++ spec_hier_params H.
+(* the full statement: PROVED since fix c453608 (Props/C10_classes.v : C10_kind_covers_features_hierarchical) *)
 Definition kind_covers_features_hierarchical_goal : Prop :=
-  forall H, wf_hier H -> incl (spec_hier H ++ spec_hier_params H) (kind_hier H).
+  forall H, wf_hier H -> incl (spec_hier_full H) (kind_hier H).
 
 (* ================================================================================================ SCHEDULING *)
 (* unified_planning/model/scheduling/scheduling_problem.py.  A SchedulingProblem is NOT a Problem: _KindFactory is built
@@ -274,7 +284,7 @@ Record sched_desc := {
   sp_fluents : list fdecl;
   sp_objtys : list ty;
   sp_metrics : list metric;
-  sp_vars : list ty;                               (* base_variables: decision variables of the base chronicle (never read by kind) *)
+  sp_vars : list ty;                               (* base_variables: decision variables of the base chronicle (update_action_parameter since fix c7cadef) *)
   sp_conds : list (interval * cexpr);              (* base_conditions *)
   sp_effs : list (tm * eff);                       (* base_effects *)
   sp_constraints : list (cexpr * bool);            (* base_scoped_constraints *)
@@ -322,6 +332,7 @@ Definition sched_raw (S : sched_desc) : list feature :=
   ++ flat_map (fun x => M.expr_feats (snd x)) (sp_conds S ++ flat_map ac_conds (sp_activities S))     (* all_conditions() *)
   ++ flat_map constraint_feats (sp_constraints S)
   ++ flat_map (fun x => M.effect_feats no_sets (snd x)) (sp_effs S)
+  ++ flat_map M.param_feats (sp_vars S)                                                                 (* base_variables (fix c7cadef) *)
   ++ flat_map activity_feats (sp_activities S)
   ++ flat_map M.initial_feats (sp_fluents S).
 Definition sched_unset (S : sched_desc) : bool :=
@@ -346,11 +357,13 @@ Definition spec_sched_class (S : sched_desc) : list feature :=
   ++ clause f_SCOPED_CONSTRAINTS (existsb snd (sched_constraints S)).
 Definition spec_sched (S : sched_desc) : list feature :=
   map unstatic (spec_features (flat_sched S)) ++ spec_sched_class S.
-(* the decision variables of the base chronicle: the same clauses as activity parameters; never read by the kind *)
+(* the decision variables of the base chronicle: the same clauses as activity parameters (visited since fix c7cadef) *)
 Definition spec_sched_vars (S : sched_desc) : list feature := flat_map spec_param_features (sp_vars S).
 Definition wf_sched (S : sched_desc) : Prop := wf (flat_sched S).
+Definition spec_sched_full (S : sched_desc) : list feature := spec_sched S ++ spec_sched_vars S.
+(* the full statement: PROVED since fix c7cadef (Props/C10_classes.v : C10_kind_covers_features_scheduling) *)
 Definition kind_covers_features_scheduling_goal : Prop :=
-  forall S, wf_sched S -> incl (spec_sched S ++ spec_sched_vars S) (kind_sched S).
+  forall S, wf_sched S -> incl (spec_sched_full S) (kind_sched S).
 (* literal reading (STATIC_ features kept): also false of the code *)
 Definition kind_covers_features_scheduling_static_goal : Prop :=
   forall S, wf_sched S -> incl (spec_features (flat_sched S)) (kind_sched S).
